@@ -18,7 +18,7 @@ EXPLANATION = (
 
 def run(tier):
     cr = CheckRun("C07", tier, "other", EXPLANATION, "DESIGN §4 C07")
-    cr.contracts(["contracts.c07", "contracts.c07b"])
+    cr.contracts(["contracts.c07", "contracts.c07b", "contracts.c11"])
     from pyvc import guards
     for f in ("dsl_compiler/cli.py", "compile.py"):
         for m in ("to_dict", "to_string"):
